@@ -28,6 +28,51 @@ package scan
 //@   just lean Orbit.inj
 //@   requires prim(g, p) && 0 <= j && j < k && k < j + p - 1
 //@   ensures seq(g, p, j) != seq(g, p, k)
+//@ lemma orbit_exp(g int, p int, k int)
+//@   just lean Orbit.exp
+//@   requires prim(g, p) && k >= 0
+//@   ensures modexp(g, k, p) == seq(g, p, k)
+//@ spec idx(g int, p int, y int, base int) int
+//@ lemma orbit_surj(g int, p int, y int, base int)
+//@   just lean Orbit.surj
+//@   requires prim(g, p) && 1 <= y && y <= p - 1 && base >= 0
+//@   ensures base <= idx(g, p, y, base) && idx(g, p, y, base) <= base + p - 2 && seq(g, p, idx(g, p, y, base)) == y
+//@ lemma cop_pow(n int, m int, r int)
+//@   just lean Orbit.cop_pow
+//@   requires coprime(n, m) && r >= 0 && m >= 2
+//@   ensures coprime(modexp(n, r, m), m)
+//@ lemma gen_pow(g int, p int, e int)
+//@   just lean Orbit.gen_pow
+//@   requires prim(g, p) && coprime(e, p - 1)
+//@   ensures prim(modexp(g, e, p), p)
+//
+// The statement of C04 over the exponent window [e0, e0+p-2] (what the contracts of newRangeIterator and Next
+// establish about the window is: an exponent j of the window is handed out iff seq(j) <= n, in increasing order):
+//@ lemma perm_exists(g int, p int, e0 int, n int, y int)
+//@   props C04
+//@   just smt
+//@   requires prim(g, p) && e0 >= 0 && 1 <= y && y <= n && n < p
+//@   ensures e0 <= idx(g, p, y, e0) && idx(g, p, y, e0) <= e0 + p - 2 && seq(g, p, idx(g, p, y, e0)) == y && seq(g, p, idx(g, p, y, e0)) <= n
+//@   proof use orbit_surj(g, p, y, e0)
+//@ lemma perm_unique(g int, p int, e0 int, j1 int, j2 int)
+//@   props C04
+//@   just smt
+//@   requires prim(g, p) && e0 >= 0 && e0 <= j1 && j1 <= e0 + p - 2 && e0 <= j2 && j2 <= e0 + p - 2 && seq(g, p, j1) == seq(g, p, j2)
+//@   ensures j1 == j2
+//@   proof use orbit_inj(g, p, j1, j2); use orbit_inj(g, p, j2, j1)
+//@ lemma perm_range(g int, p int, n int, j int)
+//@   props C04
+//@   just smt
+//@   requires prim(g, p) && j >= 0 && seq(g, p, j) <= n
+//@   ensures 1 <= seq(g, p, j) && seq(g, p, j) <= n
+//@   proof use orbit_range(g, p, j)
+//
+//@ table cyclicGroups
+//@   props C04 C01
+//@   fact rowok: forall i int :: 0 <= i && i < len(T) ==> T[i].P >= 3 && prim(T[i].G, T[i].P) && coprime(T[i].N, T[i].P - 1)
+//@   fact bounded: forall i int :: 0 <= i && i < len(T) ==> T[i].P <= 4294967357
+//@   fact sorted: forall i int :: 0 <= i && i + 1 < len(T) ==> T[i].P < T[i+1].P
+//@   fact last: T[len(T) - 1].P == 4294967357
 //
 // Ghost state of the iterator: exponents of startI (e0), of I (e) and of the value last handed out (last).
 //@ ghost rangeIterator.e0 int
@@ -60,3 +105,17 @@ package scan
 //@            && (forall j int :: old(it.last) < j && j < it.last ==> seq(big(it.G), big(it.P), j) > big(it.rangeLimit))
 //@   ensures done: !ret ==> it.stop && it.last == old(it.last)
 //@   ensures same: it.e0 == old(it.e0) && big(it.G) == old(big(it.G)) && big(it.P) == old(big(it.P)) && big(it.rangeLimit) == old(big(it.rangeLimit))
+
+//@ func newRangeIterator
+//@   props C04 C01
+//@   ensures reject: (n < 1 || n >= 4294967357) ==> ret1 != nil
+//@   ensures accept: (1 <= n && n <= 4294967356) ==> ret1 == nil && ret0 != nil && RI(ret0) && big(ret0.rangeLimit) == n
+//@        && 1 <= big(ret0.I) && big(ret0.I) <= n && ret0.last == ret0.e0
+//@        && big(ret0.I) == seq(big(ret0.G), big(ret0.P), ret0.last) && (!ret0.stop ==> ret0.e == ret0.e0)
+//@   ensures freshness: ret1 == nil ==> fresh(ret0)
+//@   at call (*math/big.Int).Exp#0 after: use cop_pow(cyclic.N, cyclic.P - 1, big(randM))
+//@   at call (*math/big.Int).Exp#1 after: use gen_pow(cyclic.G, cyclic.P, big(N))
+//@   at call (*math/big.Int).Exp#2 after: use orbit_exp(big(G), cyclic.P, big(randM))
+//@   at call (*pkg/scan.rangeIterator).Next#0 before: ghost it.e0 := big(randM); ghost it.e := big(randM); ghost it.last := big(randM)
+//@   at call (*pkg/scan.rangeIterator).Next#0 after: use orbit_surj(big(G), big(P), 1, it.e0); use orbit_surj(big(G), big(P), 2, it.e0); use orbit_range(big(G), big(P), it.e); use orbit_period(big(G), big(P), it.e0)
+//@   at call (*math/big.Int).Set#2 after: if !it.stop then ghost it.e0 := it.e
